@@ -402,6 +402,36 @@ def bspOuter (op : α → α → α) (G1 G2 : Func α) : Func α :=
   { nurbs := false, dims := G1.dims ++ G2.dims, vshape := outerVshape G1.vshape G2.vshape, isscalar := false,
     c := outerOp op G1.npts G1.ncomp G2.npts G2.ncomp G1.c G2.c }
 
+/-- numpy broadcasting of two trailing value shapes (right-aligned, the shorter one padded with
+singleton axes at the FRONT, as `_prepare_for_outer` does since de9e585); `none` = the shapes
+are not broadcastable (`ValueError`). -/
+def broadcastShape (v1 v2 : List Nat) : Option (List Nat) :=
+  let n := max v1.length v2.length
+  let p1 := List.replicate (n - v1.length) 1 ++ v1
+  let p2 := List.replicate (n - v2.length) 1 ++ v2
+  if (p1.zip p2).all (fun (a, b) => a == b || a == 1 || b == 1) then
+    some ((p1.zip p2).map (fun (a, b) => max a b))
+  else none
+
+/-- flat index into an operand of value shape `v` for the flat index `b` of the broadcast
+result of shape `vres`: the operand sees the last `len v` digits of `b`, with digit `0` on its
+singleton axes. -/
+def bcastIndex (vres v : List Nat) (b : Nat) : Nat :=
+  let digits := (fromSeq b vres).drop (vres.length - v.length)
+  toSeq ((digits.zip v).map (fun (d, n) => if n = 1 then 0 else d)) v
+
+/-- `outer_sum` / `outer_product` of two BSplineFuncs with value shapes of any rank
+(`_prepare_for_outer` + numpy broadcasting of `C1.reshape(SD1,1…,VD1') ∘ C2.reshape(1…,SD2,VD2')`). -/
+def bspOuterG (op : α → α → α) (G1 G2 : Func α) : Except String (Func α) :=
+  match broadcastShape G1.vshape G2.vshape with
+  | none => .error "err-ValueError"
+  | some vres =>
+    .ok { nurbs := false, dims := G1.dims ++ G2.dims, vshape := vres, isscalar := false,
+          c := (List.range G1.npts).flatMap (fun I1 => (List.range G2.npts).flatMap (fun I2 =>
+            (List.range (prod vres)).map (fun b =>
+              op (G1.at (I1 * G1.ncomp + bcastIndex vres G1.vshape b))
+                 (G2.at (I2 * G2.ncomp + bcastIndex vres G2.vshape b))))) }
+
 /-- `outer_sum` / `outer_product` when either operand is a NURBS (`Gi` already `as_nurbs`):
 `NurbsFunc(kvs, C1 ∘ C2, W1 * W2)` on the de-premultiplied coefficients -/
 def nurbsOuter (op : α → α → α) (G1 G2 : Func α) : Func α :=
